@@ -2,3 +2,7 @@
 #![allow(dead_code, unused_imports, clippy::all)]
 pub mod iface;
 pub mod reference;
+pub mod bus;
+pub mod step;
+#[cfg(kani)]
+mod harness;
